@@ -210,7 +210,9 @@ def r4(ctx):
         raise AnalysisError(f"positional task arguments are not a literal list: {pos}")
     tparams = target.own_params
     bound = dict(zip(tparams, pos.elems))
-    sp = setup.params
+    sp = list(setup.params)                       # reference names, reference order
+    own = list(setup.own_params)                  # the parameters as written today
+    sp_full = sp                                  # applications are written in the reference order (TermBuilder._positional)
     want = {
         "empirical_covariance": Attr(Sym(sp[0]), "empirical_covariance"),
         "sparsity_weight": Sym(sp[3]),
@@ -246,7 +248,7 @@ def r4(ctx):
     data = Sym(caller.params[1])
     W = Attr(Attr(m, "arguments"), "window_size")
     for c in calls:
-        ba = dict(zip(sp, c.args))
+        ba = dict(zip(sp_full, c.args))
         ba.update(dict(c.kw))
         cl = ba.get(sp[0])
         ctx.check(isinstance(cl, Idx) and cl.base == Attr(m, "clusters"), caller, "the task is built from a cluster of the phase's input state",
